@@ -41,7 +41,10 @@ class CirqExporter(QCircuitExporter):
                             gate_mapping[g_name] if g_name in gate_mapping else g_name
                         )
 
-                        if isinstance(g, gates.MCX) or (
+                        if issubclass(g.__class__, gates.NopGate):
+                            continue
+
+                        elif isinstance(g, gates.MCX) or (
                             isinstance(g, gates.MCtrl) and isinstance(g.gate, gates.X)
                         ):
                             gg = cirq.ControlledGate(
